@@ -55,6 +55,11 @@ PROGSETS = {
                  r2=P([I('yn', v=4), I('yar', v=4)])),
     'fail': dict(r1=P([I('yn', v=8), I('raise')]),
                  r2=P([I('alw', v=2)], inv=0)),
+    # failures that are BaseExceptions but not Exceptions: same rule (Done, StopStream afterwards, stack restored)
+    'failbase': dict(r1=P([I('yn', v=8), I('raise', v=2)]),
+                     r2=P([I('next', 'r1'), I('yn', v=1), I('next', 'r1', c=1), I('raise', v=4)])),
+    'failbase2': dict(r1=P([I('raise', v=3)], plain=1, inv=0),
+                      r2=P([T(), I('next', 'r1'), X(), I('yv', v=2), EX(), I('raise', v=1)])),
     'plain': dict(r1=P([I('next', 'r2', c=1)], plain=1, inv=0),
                   r2=P([I('yn', v=1), I('yv', v=2)])),
     'nest': dict(r1=P([I('next', 'r2'), I('yn', v=8), I('next', 'r2', c=1), I('yn', v=8), I('next', 'r2')]),
@@ -100,7 +105,7 @@ PROGSETS = {
                   r3=P([I('yn', v=1), I('stop', 'r1', c=1), I('raise')])),
 }
 QUICK_SETS = ('flow', 'fail', 'nest', 'nestops', 'selfops', 'reentry', 'cond', 'flowvar', 'plain', 'embed', 'embedfail',
-              'trycatch', 'tryfin', 'tryself', 'trypend', 'trycond')
+              'trycatch', 'tryfin', 'tryself', 'trypend', 'trycond', 'failbase', 'failbase2')
 
 
 def alphabet(prog):
@@ -142,7 +147,9 @@ def random_instr(rnd, names, me, plain, in_handler):
         return I(op, v=rnd.choice((0, 1, 2, 4, 8)))
     if op == 'yv':
         return I(op, v=rnd.randint(1, 9))
-    if op in ('ret', 'raise'):
+    if op == 'raise':
+        return I(op, v=rnd.choice((0, 0, 0, 1, 2, 3, 4)))
+    if op == 'ret':
         return I(op)
     if op in ('next', 'embed'):
         # clean-up code that restarts its own routine would recurse (stop -> clean-up -> next -> stop ...)
@@ -265,7 +272,9 @@ def judge(ctx, cases, traces):
 
 def sim_cases(ctx, sel, num, depth, seed):
     from harness import tlc
-    behs, r = tlc.simulate_behaviours('Routine', 'Routine_sim%d.cfg' % sel, ctx.work, num=num, depth=depth, seed=seed)
+    import os
+    behs, r = tlc.simulate_behaviours('Routine', 'Routine_sim%d.cfg' % sel, os.path.join(ctx.work, 'sim%d' % sel), num=num,
+                                      depth=depth, seed=seed)      # own work dir: simulations run concurrently
     ctx.cov['transitions'] += r.generated
     out = []
     for b in behs:
@@ -275,7 +284,7 @@ def sim_cases(ctx, sel, num, depth, seed):
     return out
 
 
-NWITNESS = 27
+NWITNESS = 28
 
 
 def witness_run(ctx, cfg, sub, must):
@@ -305,38 +314,40 @@ def run(ctx):
     t0 = time.time()
     ph = ctx.cov['phase_s'] = {}
     # 1. design: the interpreter satisfies the L1 predicates for every body of bounded length
-    with ThreadPoolExecutor(7) as ex:
-        # vacuity guard: TLC's -coverage cannot be used (its cost model unfolds the recursive interpreter and runs
-        # out of memory), so a one-worker run records in TLC registers that every action and every situation an L1
-        # predicate talks about (Witnesses in Routine.tla) is reached, and prints them in a POSTCONDITION
-        fs = [ex.submit(witness_run, ctx, 'Routine_witness.cfg', 'w', range(1, 23)),
-              ex.submit(witness_run, ctx, 'Routine_witness2.cfg', 'w2', range(23, NWITNESS + 1))]
-        for sel in ((1, 2, 3, 4, 6, 9) if thorough else (1, 2, 3, 4, 7)):
-            fs.append(ex.submit(model_check_in, ctx, 'p%d' % sel, 'Routine',
-                                'Routine_p%d%s.cfg' % (sel, '_thorough' if thorough else ''),
-                                timeout=1800, workers=4 if thorough else 3, label='bodies p%d' % sel))
-        for f in fs:
-            ctx.expect_ok(f.result(), 'Routine L1')
-
-    ph['model'] = round(time.time() - t0, 1)
-    # 2. binding: exhaustive short histories, random long ones, simulated spec behaviours
+    ex = ThreadPoolExecutor(8)
+    # vacuity guard: TLC's -coverage cannot be used (its cost model unfolds the recursive interpreter and runs
+    # out of memory), so one-worker runs record in TLC registers that every action and every situation an L1
+    # predicate talks about (Witnesses in Routine.tla) is reached, and print them in a POSTCONDITION
+    fs = [ex.submit(witness_run, ctx, 'Routine_witness.cfg', 'w', range(1, 23)),
+          ex.submit(witness_run, ctx, 'Routine_witness2.cfg', 'w2', range(23, NWITNESS + 1))]
+    for sel in ((1, 2, 3, 4, 6, 9) if thorough else (1, 2, 3, 4, 7)):
+        fs.append(ex.submit(model_check_in, ctx, 'p%d' % sel, 'Routine',
+                            'Routine_p%d%s.cfg' % (sel, '_thorough' if thorough else ''),
+                            timeout=1800, workers=4 if thorough else 3, label='bodies p%d' % sel))
+    # 2. binding (runs while the model runs finish): exhaustive short histories, random long ones, simulated behaviours
+    sims = [ex.submit(sim_cases, ctx, sel, 1500 if thorough else 120, 14, ctx.seed + sel)
+            for sel in ((1, 2, 3, 4, 6, 9) if thorough else (1, 2, 3, 4, 9))]
     rnd = random.Random(ctx.seed)
     if thorough:
         cases = (exhaustive_cases(sorted(PROGSETS), 3)
                  + exhaustive_cases(('nestops', 'reentry', 'cond', 'embed', 'tryfin', 'tryself'), 4, reduced=True))
     else:
-        cases = (exhaustive_cases(QUICK_SETS, 2) + exhaustive_cases(('reentry', 'cond'), 3)
-                 + exhaustive_cases(('tryfin', 'trycatch'), 3, reduced=True))
+        cases = (exhaustive_cases(QUICK_SETS, 2)
+                 + exhaustive_cases(('reentry', 'cond', 'tryfin', 'trycatch', 'failbase'), 3, reduced=True))
     nrand = 6000 if thorough else 500
     cases += [random_case(rnd, rnd.randint(15, 60), clocky=(i % 3 == 0)) for i in range(nrand)]
-    for sel in ((1, 2, 3, 4, 6, 9) if thorough else (1, 2, 3, 4, 9)):
-        cases += sim_cases(ctx, sel, 1500 if thorough else 120, 14, ctx.seed + sel)
+    for f in sims:
+        cases += f.result()
     ph['generate+simulate'] = round(time.time() - t0, 1)
     traces = run_cases(ctx, cases)
     ph['drivers'] = round(time.time() - t0, 1)
     ctx.cov['evaluations'] += sum(len(t['ev']) for t in traces)
     judge(ctx, cases, traces)
     ph['validate'] = round(time.time() - t0, 1)
+    for f in fs:        # 1. design: the interpreter satisfies the L1 predicates for every body of bounded length
+        ctx.expect_ok(f.result(), 'Routine L1')
+    ex.shutdown()
+    ph['model'] = round(time.time() - t0, 1)
     # 3. real time: wait/signal/unhang/FlowVar with the signals coming from plain threads and other clocks' tasks,
     #    on the real clocks under the controlled scheduler, judged by the ClockL1 monitor (props/_rtcond.py)
     from props import _rtcond
